@@ -128,12 +128,16 @@ impl Iterator for FaultyIter {
         }
         match self.inner.next() {
             Some(e) => Some(e),
-            None if self.hint == 4 && self.slack != usize::MAX => {
-                // first None; a consumer that polls again gets a poison element (a protocol violation of the consumer)
-                self.slack = usize::MAX;
+            None if self.hint == 4 && self.slack < usize::MAX - 2 => {
+                // first None; a consumer that polls again gets (two) poison elements — polling again is a
+                // protocol violation of the consumer
+                self.slack = usize::MAX - 2;
                 None
             }
-            None if self.hint == 4 => Some(E::with_tag(ledger::TAG_GARB - 1)),
+            None if self.hint == 4 && self.slack < usize::MAX => {
+                self.slack += 1;
+                Some(E::with_tag(ledger::TAG_GARB - 1))
+            }
             None => None,
         }
     }
